@@ -378,6 +378,15 @@ class Interp:
             return FuncRef(e)
         if isinstance(e, (ast.GeneratorExp, ast.ListComp)):
             return self._comprehension(e, 0, env)
+        if isinstance(e, ast.DictComp):
+            # {k: v for ...}: evaluated as the list of (k, v) pairs
+            pairs = self._comprehension(ast.copy_location(ast.ListComp(elt=ast.Tuple(elts=[e.key, e.value], ctx=ast.Load()), generators=e.generators), e), 0, env)
+            out_c = {}
+            for kv in pairs:
+                if not isinstance(kv[0], str):
+                    raise Incomplete(site(e), 'dict comprehension with a non-string key')
+                out_c[kv[0]] = kv[1]
+            return out_c
         if isinstance(e, ast.Dict):
             out_d = {}
             for k, v in zip(e.keys, e.values):
@@ -422,7 +431,7 @@ class Interp:
                 return External(q)
             if isinstance(node, ast.FunctionDef):
                 return FuncRef(node)
-            if isinstance(node, ast.Assign):
+            if isinstance(node, ast.Assign) or (isinstance(node, ast.AnnAssign) and node.value is not None):
                 return self.eval(node.value, {})
             if q != e.id or e.id in module.imports:
                 return External(q)
